@@ -1172,6 +1172,8 @@ static void do_op_inner(const struct sim_op *op)
         if (x & 4) uref_flow_set_id(fd, x % 100);
         static const uint64_t fsizes[] = { 188, 16, 1500, 70 };
         if (x & 8) uref_block_flow_set_size(fd, fsizes[(x >> 4) & 3]);
+        /* (what upipe_ts_tstd needs besides the octet rate) */
+        if ((x & 16) && !(types[type].flags & F_TYPED)) uref_block_flow_set_buffer_size(fd, 500 + (x % 7) * 300);
         if (sweep_k)
             sim_alloc_resume();
         if (mode == MODE_TWIN && rejected[cur_op]) {
